@@ -6,7 +6,7 @@ cd "$WT" || exit 2
 git checkout -q -- . ; rm -f ddo/tests/seed_demo*.rs
 git apply "$PATCH" || { echo "PATCH DOES NOT APPLY"; exit 2; }
 echo "== suite with change"; cargo test --workspace --offline 2>&1 | grep -E "^test result|FAILED|panicked" | head -5
-cp "$DEMO" ddo/tests/seed_demo.rs
+mkdir -p ddo/tests; cp "$DEMO" ddo/tests/seed_demo.rs
 echo "== demo with change (must FAIL)"; cargo test --offline -p ddo --test seed_demo 2>&1 | grep -E "^test result|panicked" | head -5
 git checkout -q -- ddo/src
 echo "== demo without change (must PASS)"; cargo test --offline -p ddo --test seed_demo 2>&1 | grep -E "^test result|panicked" | head -5
